@@ -143,6 +143,41 @@ def check_table(rep, tname, M):
                 f"{tname}: non-member {bogus!r}: in->{r_in!r} []->{r_item!r} get->{r_get!r}",
                 {"kind": "bogus", "table": tname, "name": bogus},
             )
+    # codes that belong to *other* tables only must not resolve here
+    own = set()
+    for v in mem.values():
+        c = getattr(v, "code", None) if is_dt else v
+        try:
+            hash(c)
+            own.add(c)
+        except TypeError:
+            pass
+    for oname, O in tables().items():
+        if O is M:
+            continue
+        o_dt = O is DataTypes
+        for on, ov in members(O).items():
+            c = getattr(ov, "code", None) if o_dt else ov
+            try:
+                hash(c)
+            except TypeError:
+                continue
+            if c in own or (isinstance(c, str) and c.lower() in names):
+                continue
+            sentinel = object()
+            r_in = _lookup(M, "in", c)
+            r_item = _lookup(M, "item", c)
+            try:
+                r_get = ("ok", M.get(c, sentinel))
+            except Exception as e:  # noqa
+                r_get = ("exc", type(e).__name__)
+            rep.case((tname, "foreign", oname, on), outcome="foreign:" + r_item[0])
+            if r_in != ("ok", False) or r_item != ("KeyError",) or not (r_get[0] == "ok" and r_get[1] is sentinel):
+                rep.violation(
+                    "foreign-code/resolves",
+                    f"{tname}: code {c!r} (member {on!r} of {oname}) is carried by no member here, yet in->{r_in!r} []->{r_item!r} get->{r_get!r:.60}",
+                    {"kind": "bogus", "table": tname, "name": repr(c)},
+                )
     rep.sample({"table": tname, "members": len(mem), "first": next(iter(mem), None)})
 
 
